@@ -353,16 +353,16 @@ func c07AllKeySets(alphabet []byte, maxLen, maxKeys int) [][]string {
 // minimal failing inputs of every known defect class + regression seeds; run first
 func c07Corpus() []c07Case {
 	return []c07Case{
-		{Keys: []string{"a/x", "a.b"}, Max: 1},                                  // order-incompatible siblings
-		{Keys: []string{"a/x", "a.b"}, Max: 10},                                 //
-		{Keys: []string{"a/b", "a/c"}, Delim: "/", Marker: "a/b", Max: 10},      // marker inside a common prefix
-		{Keys: []string{"a/b"}, Delim: "/", Marker: "a", Max: 10},               // marker prefixing a common prefix
-		{Keys: []string{"a-b", "a-c", "b"}, Delim: "-", Max: 1},                 // non-'/' delimiter, own NextMarker
-		{Keys: []string{"a-b", "a"}, Delim: "-", Marker: "a", Max: 10},          //
-		{Keys: []string{"a/", "b"}, Max: 1},                                     // directory object, delimiter ""
-		{Keys: []string{"a/", "a/b"}, Prefix: "a/b", Max: 10},                   //
-		{Keys: []string{"a/", "a/b"}, Prefix: "a/", Delim: "/", Max: 10},        // directory object with children
-		{Keys: []string{"x/0", "x/z"}, Skip: []string{"0"}, Max: 10},            // file named like a skipdir
+		{Keys: []string{"a/x", "a.b"}, Max: 1},                                       // order-incompatible siblings
+		{Keys: []string{"a/x", "a.b"}, Max: 10},                                      //
+		{Keys: []string{"a/b", "a/c"}, Delim: "/", Marker: "a/b", Max: 10},           // marker inside a common prefix
+		{Keys: []string{"a/b"}, Delim: "/", Marker: "a", Max: 10},                    // marker prefixing a common prefix
+		{Keys: []string{"a-b", "a-c", "b"}, Delim: "-", Max: 1},                      // non-'/' delimiter, own NextMarker
+		{Keys: []string{"a-b", "a"}, Delim: "-", Marker: "a", Max: 10},               //
+		{Keys: []string{"a/", "b"}, Max: 1},                                          // directory object, delimiter ""
+		{Keys: []string{"a/", "a/b"}, Prefix: "a/b", Max: 10},                        //
+		{Keys: []string{"a/", "a/b"}, Prefix: "a/", Delim: "/", Max: 10},             // directory object with children
+		{Keys: []string{"x/0", "x/z"}, Skip: []string{"0"}, Max: 10},                 // file named like a skipdir
 		{Keys: []string{"0/m/x", "y"}, Skip: []string{"0"}, Prefix: "0/m/", Max: 10}, // prefix below the skipdir
 		{Keys: []string{"0/m/x", "y"}, Skip: []string{"0"}, Max: 10},
 		{Keys: []string{"photos/2006/Jan/a.jpg", "photos/2006/Feb/b.jpg", "sample.jpg"}, Delim: "/", Max: 1},
